@@ -218,10 +218,18 @@ theorem C17_session_local (s : Srv) (a : List Char) (q : Q) (t' : Token) (h : t'
     | some se => exact lookup_map_ne _ _ _ _ h
 
 /-- a login leaves every other token's session untouched and all data untouched -/
-theorem C17_login_local (s : Srv) (tok : Token) (b : Backing) (sch : Nat) (t' : Token) (h : t' ≠ tok) :
+theorem C17_login_local (s : Srv) (tok : Token) (b : Backing) (sch : Option Nat) (t' : Token) (h : t' ≠ tok) :
     lookup (step s (.login tok b sch)).1.sessions t' = lookup s.sessions t' ∧
     (step s (.login tok b sch)).1.data = s.data := by
   cases b <;> exact ⟨lookup_assign_ne _ _ _ _ h, rfl⟩
+
+/-- **A login gets exactly the context it asked for**: the new session's current schema is the one named in the login
+    request — and *no* current schema when none was named (the server invents no default such as PUBLIC) —, it has no
+    variables and no open transaction, exactly like `FakeSnow.connect(database, schema)` in-process. -/
+theorem C17_login_context (s : Srv) (tok : Token) (b : Backing) (sch : Option Nat) :
+    ∃ se, lookup (step s (.login tok b sch)).1.sessions tok = some se ∧
+      se.schema = sch ∧ se.vars = [] ∧ se.tx = none ∧ se.backing = b := by
+  cases b <;> simp [step, assign, lookup]
 
 /-- **Data of other instances is untouched**: a statement run by a session of instance `i` changes no row of
     any instance `j ≠ i` — an `:isolated:`/path-backed login can neither see nor disturb the shared data. -/
@@ -269,7 +277,7 @@ theorem C17_tx_only_commit_publishes (se : Sess) (d : List (Nat × Int)) (w : Li
 /-- non-vacuity: BEGIN, write, failing statement, write, then ROLLBACK resp. COMMIT, observed by the session itself and
     by a second plain login -/
 example :
-    (run {} [.login ['a'] .shared 1, .login ['b'] .shared 1,
+    (run {} [.login ['a'] .shared (some 1), .login ['b'] .shared none,
              .query (some (authHeader ['a'])) .begin, .query (some (authHeader ['a'])) (.put 1),
              .query (some (authHeader ['a'])) .fail, .query (some (authHeader ['a'])) (.put 2),
              .query (some (authHeader ['a'])) .getAll, .query (some (authHeader ['b'])) .getAll,
@@ -304,7 +312,7 @@ theorem C17_sharing (reqs : List Req) :
 
 /-- non-vacuity: a concrete history with a shared pair, an isolated login, a forged token and a missing header -/
 example :
-    (run {} [.login ['a'] .shared 1, .login ['b'] .shared 1, .login ['c'] .isolated 1,
+    (run {} [.login ['a'] .shared (some 1), .login ['b'] .shared (some 1), .login ['c'] .isolated none,
              .query (some (authHeader ['a'])) (.put 7), .query (some (authHeader ['c'])) (.put 9),
              .query (some (authHeader ['x'])) (.put 1), .query none .getAll,
              .query (some (authHeader ['a'])) (.setVar 1 5), .query (some (authHeader ['b'])) (.getVar 1),
